@@ -52,6 +52,96 @@ package consul
 //@   loop 2 invariant total == nSame(checks, svc, rangeindex+1) && passing == nPass(checks, svc, rangeindex+1, status)
 //@   loop 2 invariant forall j int :: 0 <= j && j <= rangeindex ==> !blocks(checks[j], svc)
 //@
+//@ // ---- C01: which checks reach the health filter ----------------------------------------------------
+//@ // node-level and maintenance checks are always kept (dropping them would hide a dead agent or a maintenance
+//@ // window from passingServices); a service check is kept exactly when one of its tags starts with the prefix
+//@ spec fun nodeLevel(c *api.HealthCheck) bool = c.CheckID == "serfHealth" || c.CheckID == "_node_maintenance" || hasPrefix(c.CheckID, "_service_maintenance")
+//@ spec fun tagged(c *api.HealthCheck, prefix string) bool opaque = exists j int :: 0 <= j && j < len(c.ServiceTags) && hasPrefix(c.ServiceTags[j], prefix)
+//@ spec fun kept(c *api.HealthCheck, prefix string) bool = nodeLevel(c) || tagged(c, prefix)
+//@ spec fun cntKept(cs []*api.HealthCheck, n int, prefix string) int decreases n = n <= 0 ? 0 : cntKept(cs, n-1, prefix) + (kept(cs[n-1], prefix) ? 1 : 0)
+//@
+//@ func checksWithTagPrefix
+//@   props C01
+//@   requires forall i int :: 0 <= i && i < len(checks) ==> checks[i] != nil
+//@   assigns nothing
+//@   ensures nopanic
+//@   // the result is exactly the order-preserving filter of checks by kept()
+//@   ensures len(result) == cntKept(checks, len(checks), prefix)
+//@   ensures forall i int :: 0 <= i && i < len(checks) && kept(checks[i], prefix) ==> 0 <= cntKept(checks, i, prefix) && cntKept(checks, i, prefix) < len(result) && result[cntKept(checks, i, prefix)] == checks[i]
+//@   ensures forall i int :: 0 <= i && i < len(result) ==> result[i] != nil
+//@   loop 1 invariant fresh(checksWithPrefix)
+//@   loop 1 invariant len(checksWithPrefix) == cntKept(checks, rangeindex+1, prefix)
+//@   loop 1 invariant forall i int :: 0 <= i && i <= rangeindex && kept(checks[i], prefix) ==> 0 <= cntKept(checks, i, prefix) && cntKept(checks, i, prefix) < len(checksWithPrefix) && checksWithPrefix[cntKept(checks, i, prefix)] == checks[i]
+//@   loop 1 invariant forall i int :: 0 <= i && i < len(checksWithPrefix) ==> checksWithPrefix[i] != nil
+//@   loop 2 invariant c != nil && !nodeLevel(c)
+//@   loop 2 invariant forall j int :: 0 <= j && j <= rangeindex ==> !hasPrefix(c.ServiceTags[j], prefix)
+//@
+//@ func NewServiceMonitor
+//@   props C01
+//@   requires config != nil
+//@   ensures nopanic
+//@   // strict mode is exactly checksRequired == "all"; the monitor reads the configuration it was given
+//@   ensures result != nil && result.strict == (config.ChecksRequired == "all") && result.config == config && result.client == client && result.dc == dc
+//@
+//@ // ---- C01: from the passing checks to the configuration text -----------------------------------------
+//@ // route commands are built from CATALOG data (tags, address, port), which changes without the health state changing:
+//@ // every call consults the catalog again - one query goroutine per service name that has a passing check (exactly one
+//@ // per turn of the loop over the names), at least one whenever there is a passing check, and every result is collected
+//@ func (*ServiceMonitor).makeConfig
+//@   props C01
+//@   requires w != nil && w.client != nil && w.config != nil && buildReady()
+//@   requires forall i int :: 0 <= i && i < len(checks) ==> checks[i] != nil
+//@   // writes only maps of instance keys and string arrays - its own map and result (the query goroutines it starts run
+//@   // under their own contract) - and no field of any object
+//@   assigns mapsOf(map[string]bool), mapsOf(map[string]map[string]bool), elems(string)
+//@   ensures nopanic
+//@   ensures len(checks) > 0 ==> goSpawns > old(goSpawns)
+//@   loop 1 invariant m != nil
+//@   loop 1 invariant w != nil && w.config != nil && w.client != nil
+//@   loop 1 invariant buildReady()
+//@   loop 1 invariant rangeindex >= 0 ==> hasKey(m, checks[0].ServiceName)
+//@   loop 1 invariant forall k string :: hasKey(m, k) ==> m[k] != nil
+//@   loop 2 invariant w != nil && w.config != nil && w.client != nil && buildReady() && goSpawns >= old(goSpawns)
+//@   loop 2 invariant forall k string :: visited(k) ==> goSpawns > old(goSpawns)
+//@   loop 2 iteration ensures goSpawns == old(goSpawns) + 1
+//@   loop 3 iteration ensures chanRecvs == old(chanRecvs) + 1
+//@
+//@ func (*ServiceMonitor).makeConfig$1
+//@   props C01
+//@   requires w != nil && w.client != nil && w.config != nil && buildReady()
+//@   assigns *
+//@
+//@ // one turn of the watcher: the configuration text that is published was made from the checks of THIS query, cut down
+//@ // first by the tag prefix and then by the health rule with the configured status list and strictness; a failed
+//@ // query publishes nothing
+//@ func (*ServiceMonitor).Watch
+//@   props C01
+//@   requires w != nil && w.client != nil && w.config != nil && buildReady()
+//@   assigns *
+//@   ensures nopanic
+//@   loop 1 invariant w != nil && w.client != nil && w.config != nil && buildReady()
+//@   at "passing := passingServices(prefixedChecks, w.config.ServiceStatus, w.strict)" assert len(prefixedChecks) == cntKept(checks, len(checks), w.config.TagPrefix) && len(passing) == cnt(prefixedChecks, len(prefixedChecks), w.config.ServiceStatus, w.strict)
+//@   loop 1 iteration ensures chanSends == old(chanSends) || chanSends == old(chanSends) + 1
+//@
+//@ // the manual (KV) overrides: every fetched value that differs from the last published one - or comes with a new index -
+//@ // is published, exactly once, and then remembered; a failed fetch publishes nothing and forgets nothing
+//@ func watchKV
+//@   props C01
+//@   requires client != nil
+//@   assigns *
+//@   ensures nopanic
+//@   loop 1 invariant client != nil
+//@   loop 1 iteration ensures (chanSends == old(chanSends) && lastValue == old(lastValue) && lastIndex == old(lastIndex)) || (chanSends == old(chanSends) + 1 && (lastValue != old(lastValue) || lastIndex != old(lastIndex)))
+//@   loop 1 iteration ensures err == nil && (value != old(lastValue) || index != old(lastIndex)) ==> chanSends == old(chanSends) + 1 && lastValue == value && lastIndex == index
+//@   loop 1 iteration ensures err != nil ==> chanSends == old(chanSends)
+//@
+//@ func listKV
+//@   props C01
+//@   requires client != nil
+//@   assigns nothing
+//@   ensures nopanic
+//@   loop 1 invariant cap(s) == 0 || fresh(s)
+//@
 //@ // ---- C14: every generated route command has passed fabio's own parser ---------------------------------------
 //@ func validateCommand
 //@   props C14
@@ -105,7 +195,7 @@ package consul
 //@   loop 3 invariant @C14 weight == weightOf(rangeover, rangeindex+1) && len(ropts) == nOpts(rangeover, rangeindex+1)
 //@
 //@ func (*ServiceMonitor).serviceConfig
-//@   props C14
+//@   props C01 C14
 //@   requires w != nil && w.client != nil && w.config != nil && buildReady()
 //@   assigns bufOf, builtFrom, mapsOf(map[string]route.Routes), elems(*route.Route), route.Route.Targets, route.Route.wTargets, elems(*route.Target), route.Target.Weight, route.Target.FixedWeight, route.Target.accessRules, elems(interface{}), mapsOf(map[string][]interface{}), ioWrites, lastWrite
 //@   ensures nopanic
@@ -113,3 +203,7 @@ package consul
 //@   ensures forall i int :: 0 <= i && i < len(config) ==> accepts(config[i]) && singleAdd(config[i]) && tableAccepts(config[i])
 //@   loop 1 invariant cap(config) == 0 || fresh(config)
 //@   loop 1 invariant forall i int :: 0 <= i && i < len(config) ==> accepts(config[i]) && singleAdd(config[i]) && tableAccepts(config[i])
+//@   // commands are built only for catalog instances that passed the health filter, from that instance's own entry and the configured tag prefix
+//@   at "cmds := r.build()" assert @C01 hasKey(passing, svc.Node + "." + svc.ServiceID) && r.svc == svc && r.prefix == w.config.TagPrefix
+//@   // nothing is emitted without a passing instance
+//@   ensures @C01 (name == "" || len(passing) == 0) ==> len(config) == 0
